@@ -125,7 +125,11 @@ func execLocalObserved(w *ATWorld, cs *ATCase, cid string) *localObs {
 	ltx := cs.Locals[0]
 	lo.crash = safeCall(func() {
 		lo.xid, _ = InGlobalTx(cid, func(ctx context.Context) error {
-			lo.toks = append(lo.toks, "L")
+			if ltx.Explicit && ltx.ContinueOnError {
+				lo.toks = append(lo.toks, "Lc")
+			} else {
+				lo.toks = append(lo.toks, "L")
+			}
 			if ltx.Explicit {
 				tx, err := w.DB.BeginTx(ctx, nil)
 				if err != nil {
@@ -149,7 +153,9 @@ func execLocalObserved(w *ATWorld, cs *ATCase, cid string) *localObs {
 						step.after, _ = tableByKey(ctx, tx, sc, "", nil)
 					}
 					lo.steps = append(lo.steps, step)
-					lo.localErr = step.err
+					if !ltx.ContinueOnError {
+						lo.localErr = step.err
+					}
 				}
 				if lo.localErr != nil {
 					tx.Rollback()
@@ -211,10 +217,25 @@ func runC18(c *Ctx) {
 	for i := 0; i < n; i++ {
 		r := rng.Fork()
 		cid := fmt.Sprintf("c18-%d", i)
-		o := ATGenOpts{AllowFindings: r.Chance(20), NullableVals: r.Chance(50), StrPK: r.Chance(30), PKUpdates: r.Chance(50), BigInts: r.Chance(10)}
+		o := ATGenOpts{AllowFindings: r.Chance(20), NullableVals: r.Chance(50), StrPK: r.Chance(30), PKUpdates: r.Chance(50), BigInts: r.Chance(10), ContinueOnError: r.Chance(40)}
 		cs := genATCase(r, w, cid, o)
 		cs.Locals = cs.Locals[:1]
 		cs.OnlyCare = r.Bool()
+		if cs.Locals[0].Explicit && len(cs.Locals[0].Stmts) > 1 && r.Chance(50) {
+			// the application ignores a failed statement (a rejected key-changing UPDATE, a duplicate key)
+			// and commits the rest
+			cs.Locals[0].ContinueOnError = true
+			sc0 := cs.Schema
+			if len(cs.Rows) > 0 && sc0.Cols[sc0.PK[0]].Typ == 'i' {
+				// make sure one statement does fail: an UPDATE that would move an existing row to a fresh key
+				row := cs.Rows[r.Intn(len(cs.Rows))]
+				bad := &ATStmt{Kind: 'U', Sets: []ATSet{{Col: sc0.PK[0], Plus: -1, E: &ATExpr{K: 'a', Val: ATVal{K: 'i', I: int64(900 + r.Intn(50))}}}},
+					Where: &ATCond{Op: "cmp:e", E: []*ATExpr{{K: 'c', Col: sc0.PK[0]}, {K: 'a', Val: row[sc0.PK[0]]}}}}
+				l := &cs.Locals[0]
+				at := r.Intn(len(l.Stmts))
+				l.Stmts = append(l.Stmts[:at], append([]*ATStmt{bad}, l.Stmts[at:]...)...)
+			}
+		}
 		if len(cs.Rows) < 2 && r.Chance(80) {
 			cs.Rows = genRows(r, cs.Schema, 2+r.Intn(4))
 		}
@@ -243,6 +264,9 @@ func runC18(c *Ctx) {
 		if localErr == nil {
 			next := 0
 			for si, step := range steps {
+				if step.err != nil {
+					continue // a failed statement changes nothing (checked by the next step's before table) and records nothing
+				}
 				changed := map[string]bool{}
 				for k, row := range step.before {
 					if a, ok := step.after[k]; !ok || strings.Join(a, ",") != strings.Join(row, ",") {
